@@ -597,6 +597,12 @@ class SDRAMPHYModel(Module):
             init           = bank_init[i]) for i in range(nbanks)]
         self.submodules += banks
 
+        # Column address on the DFI address bus: A10 is the auto-precharge flag, not a column bit.
+        def dfi_col(address):
+            if colbits > 10:
+                return Cat(address[:10], address[11:colbits + 1])
+            return address[:colbits]
+
         # Connect DFI phases to Banks (CMDs, Write datapath) ---------------------------------------
         for nb, bank in enumerate(banks):
             # Bank activate
@@ -629,7 +635,7 @@ class SDRAMPHYModel(Module):
                 self.comb += writes[np].eq(phase.write)
                 cases[2**np] = [
                     bank_write.eq(phase.bank == nb),
-                    bank_write_col.eq(phase.address)
+                    bank_write_col.eq(dfi_col(phase.address))
                 ]
             self.comb += Case(writes, cases)
             self.comb += [
@@ -660,7 +666,7 @@ class SDRAMPHYModel(Module):
                 self.comb += reads[np].eq(phase.read)
                 cases[2**np] = [
                     bank.read.eq(phase.bank == nb),
-                    bank.read_col.eq(phase.address)
+                    bank.read_col.eq(dfi_col(phase.address))
             ]
             self.comb += Case(reads, cases)
 
